@@ -2,47 +2,169 @@
 // paste into the harness module and run `cargo kani playback -Z concrete-playback`
 /// Test generated for harness `bmc::bmca::verif_bmca::c05_state_decision_matches_reference` 
 ///
-/// Check for `cover`: "stay"
+/// Check for `assertion`: "This is a placeholder message; Kani doesn't support message formatted at runtime"
 
 #[test]
-fn kani_concrete_playback_c05_state_decision_matches_reference_10052710792493740788() {
+fn kani_concrete_playback_c05_state_decision_matches_reference_15364763346858056997() {
     let concrete_vals: Vec<Vec<u8>> = vec![
+        // 128
+        vec![128],
+        // 128
+        vec![128],
+        // 65
+        vec![65],
         // 0
         vec![0],
-        // 48
-        vec![48],
-        // 0
-        vec![0],
-        // 10
-        vec![10],
-        // 80
-        vec![80],
-        // 0
-        vec![0],
-        // 63
-        vec![63],
-        // 250
-        vec![250],
-        // 32
-        vec![32],
+        // 92
+        vec![92],
         // 128
         vec![128],
         // 0
         vec![0],
+        // 0
+        vec![0],
+        // 0
+        vec![0],
+        // 0
+        vec![0],
+        // 0
+        vec![0],
+        // 0
+        vec![0],
         // 128
         vec![128],
-        // 38
-        vec![38],
-        // 33800
-        vec![8, 132],
+        // 0
+        vec![0, 0],
+        // 3
+        vec![3, 0],
+        // 1
+        vec![1],
+        // 1
+        vec![1, 0],
+        // 192
+        vec![192],
+        // 0
+        vec![0],
+        // 162
+        vec![162],
+        // 96
+        vec![96],
+        // 0
+        vec![0],
+        // 64
+        vec![64],
+        // 64
+        vec![64],
+        // 146
+        vec![146],
+        // 0
+        vec![0, 0],
+        // 0
+        vec![0, 0],
+        // 0ul
+        vec![0, 0, 0, 0, 0, 0, 0, 0],
+        // 98308
+        vec![4, 128, 1, 0],
         // 0
         vec![0, 0],
         // 0
         vec![0],
         // 0
         vec![0],
+        // 128
+        vec![128],
+        // 0
+        vec![0, 0],
+        // 0
+        vec![0],
+        // 128
+        vec![128],
+        // 128
+        vec![128],
+        // 0
+        vec![0],
+        // 32
+        vec![32],
+        // 92
+        vec![92],
+        // 70
+        vec![70],
+        // 0
+        vec![0],
+        // 0
+        vec![0],
+        // 33280
+        vec![0, 130],
+        // 16
+        vec![16],
+        // 9223372036854775808
+        vec![0, 0, 0, 0, 0, 0, 0, 128, 0, 0, 0, 0, 0, 0, 0, 0],
         // 1
         vec![1],
+        // 0
+        vec![0],
+        // 0
+        vec![0, 0],
+        // 192
+        vec![192],
+        // 0
+        vec![0],
+        // 162
+        vec![162],
+        // 96
+        vec![96],
+        // 0
+        vec![0],
+        // 64
+        vec![64],
+        // 64
+        vec![64],
+        // 146
+        vec![146],
+        // 0
+        vec![0, 0],
+        // 0
+        vec![0, 0],
+        // 0ul
+        vec![0, 0, 0, 0, 0, 0, 0, 0],
+        // 98316
+        vec![12, 128, 1, 0],
+        // 0
+        vec![0, 0],
+        // 0
+        vec![0],
+        // 0
+        vec![0],
+        // 128
+        vec![128],
+        // 0
+        vec![0, 0],
+        // 0
+        vec![0],
+        // 128
+        vec![128],
+        // 128
+        vec![128],
+        // 0
+        vec![0],
+        // 32
+        vec![32],
+        // 92
+        vec![92],
+        // 70
+        vec![70],
+        // 0
+        vec![0],
+        // 0
+        vec![0],
+        // 33280
+        vec![0, 130],
+        // 16
+        vec![16],
+        // 9223372036854775808
+        vec![0, 0, 0, 0, 0, 0, 0, 128, 0, 0, 0, 0, 0, 0, 0, 0],
+        // 2
+        vec![2],
     ];
     kani::concrete_playback_run(concrete_vals, c05_state_decision_matches_reference);
 }
